@@ -444,7 +444,23 @@ func main() {
 				why += " fatal: " + firstLines(r.Fatal, 30)
 			}
 			last := lastJournal(j.out + ".journal")
-			broken = append(broken, fmt.Sprintf("pass %s shard %d did not finish (%s); last scenario: %s\n%s", j.p.Name, j.shard, why, last, tail))
+			if msg, frame, ok := libraryGoroutinePanic(j.stderr); ok {
+				// the process was taken down by a panic in a goroutine the
+				// library started (nothing the caller of Stream can recover):
+				// a violation of whatever the check was observing, not a
+				// broken check
+				key := "lib-goroutine-panic:" + short(frame)
+				if v := vios[key]; v != nil {
+					v.Count++
+				} else {
+					path := filepath.Join(replayDir, fmt.Sprintf("%s-crash-%016x.txt", prop, fnv([]byte(key))))
+					_ = os.MkdirAll(replayDir, 0o755)
+					_ = os.WriteFile(path, []byte(key+"\nlast scenario: "+last+"\n\n"+tailFile(j.stderr, 400)), 0o644)
+					vios[key] = &violation{Key: key, Msg: fmt.Sprintf("a goroutine started by the library panicked and ended the process: %s (in %s); last scenario: %s", msg, short(frame), last), Replay: path, Count: 1}
+				}
+			} else {
+				broken = append(broken, fmt.Sprintf("pass %s shard %d did not finish (%s); last scenario: %s\n%s", j.p.Name, j.shard, why, last, tail))
+			}
 			if err != nil {
 				continue
 			}
@@ -715,6 +731,71 @@ func tailFile(path string, n int) string {
 		lines = lines[len(lines)-n:]
 	}
 	return strings.Join(lines, "\n")
+}
+
+// libraryGoroutinePanic inspects the stderr of a worker that died: it reports
+// a Go panic whose goroutine was created by library code and whose innermost
+// non-runtime frame is library or driver code (no harness frame above it).
+func libraryGoroutinePanic(path string) (msg, frame string, ok bool) {
+	b, err := os.ReadFile(path)
+	if err != nil {
+		return "", "", false
+	}
+	s := string(b)
+	i := strings.LastIndex(s, "\npanic: ")
+	if i < 0 {
+		if strings.HasPrefix(s, "panic: ") {
+			i = -1
+		} else {
+			return "", "", false
+		}
+	}
+	s = s[i+1:]
+	lines := strings.Split(s, "\n")
+	msg = strings.TrimPrefix(lines[0], "panic: ")
+	// the first goroutine block after the message is the panicking goroutine
+	start := -1
+	for k, ln := range lines {
+		if strings.HasPrefix(ln, "goroutine ") {
+			start = k
+			break
+		}
+	}
+	if start < 0 {
+		return "", "", false
+	}
+	created := false
+	for _, ln := range lines[start+1:] {
+		if ln == "" {
+			break
+		}
+		if strings.HasPrefix(ln, "\t") {
+			continue
+		}
+		fn := ln
+		if strings.HasPrefix(fn, "created by ") {
+			fn = strings.TrimPrefix(fn, "created by ")
+			if k := strings.Index(fn, " in goroutine"); k > 0 {
+				fn = fn[:k]
+			}
+			created = strings.HasPrefix(fn, "github.com/Breeze0806/gobinlog") || strings.HasPrefix(fn, "github.com/Breeze0806/mysql")
+			continue
+		}
+		if k := strings.LastIndexByte(fn, '('); k > 0 {
+			fn = fn[:k]
+		}
+		if frame == "" {
+			switch {
+			case strings.HasPrefix(fn, "runtime.") || strings.HasPrefix(fn, "panic(") || fn == "panic" || strings.HasPrefix(fn, "sync.") || strings.HasPrefix(fn, "internal/") || strings.HasPrefix(fn, "sync/atomic."):
+				continue
+			case strings.HasPrefix(fn, "github.com/Breeze0806/gobinlog") || strings.HasPrefix(fn, "github.com/Breeze0806/mysql"):
+				frame = fn
+			default:
+				return "", "", false // the innermost frame is not library code
+			}
+		}
+	}
+	return msg, frame, frame != "" && created
 }
 
 func firstLines(s string, n int) string {
